@@ -98,7 +98,7 @@ CLAIMED = {
    design="§A7 C13 (as built), Part II §7 C13 (rationale)"),
  "C14": dict(
    text="Lean 4 theorems over a literal model of the VB20 polynomial code: loop invariants of create_coefficients (ω(y)(y+α) = ∏A(α)·d_D(y)/∏D(α) − d_A(y)), batch update preserves the witness relation and equals the from-scratch witness, for every history of batches of any sizes by induction, deleted elements are never updated, single-step formulas for one element, non-membership analogue; all for every field, key and element. Tied to the real vb20 API by comparing every coefficient vector, accumulator and witness (batch, multi-batch in every contiguous grouping, single-step, non-membership) in discrete-log space with the real points.",
-   note="Trusted: Lean kernel + standard axioms; reading of the pairing check as (y+α)•C = V (bilinearity + non-degeneracy of BLS12-381); generic-position hypotheses y+α≠0, d+α≠0 are explicit. The multi-batch formula (evaluate_deltas) is tied by correspondence and oracle only; its theorem is the stepwise history theorem.",
+   note="Trusted: Lean kernel + standard axioms; reading of the pairing check as (y+α)•C = V (bilinearity + non-degeneracy of BLS12-381); generic-position hypotheses y+α≠0, d+α≠0 are explicit. The multi-batch formula (evaluate_deltas) is modelled by recursion on the epoch list (the Rust loop indexes prefix / suffix products; same sum — compared with the real code on every contiguous grouping) and proved: multi_batch_update_isWitness / multi_batch_eq_stepwise for every history.",
    technique="Lean 4 proof (loop invariants, induction over histories) + differential correspondence in discrete-log space",
    design="§A7 C14 (as built), Part II §7 C14 (rationale)"),
  "C20": dict(
